@@ -89,3 +89,22 @@ func ZZ_C04_prefix(a []int) {
 	zzEmitU("cut", uint64(cut))
 	zzEmitU("err", zzB2U(err != nil))
 }
+
+// ZZ_C04_big (T-mode): a valid frame of shape a - one string or binary field
+// at a boundary length such as 65 534 or 65 535 bytes, everything else
+// present - is decoded through ReadPacket and through UnmarshalBinary:
+// offset arithmetic in 16-bit types wraps only for such lengths.
+func ZZ_C04_big(a []int) {
+	sh := zzShapeOf(a)
+	sh.nz = 3
+	abs := zzGen(sh)
+	body := zzRefBody(abs)
+	b0 := byte(abs.typ)<<4 | abs.hflags
+	p, err := ReadPacket(&zzContig{b: zzFrame(b0, body)})
+	zzReach("big")
+	zzAssert((p == nil) != (err == nil), "ReadPacket must return exactly one of packet and error")
+	q := zzNew(abs.typ)
+	err2 := q.UnmarshalBinary(body)
+	zzEmitU("err", zzB2U(err != nil))
+	zzEmitU("err2", zzB2U(err2 != nil))
+}
